@@ -21,7 +21,7 @@ import (
 type spec struct {
 	Name string // Coq identifier
 	File string // path relative to repo
-	Kind string // const | field | chancap | strlist | call
+	Kind string // const | field | chancap | strlist | call | arraylen | cmpop
 	Key  string // Go identifier / field name
 	Fn   string // enclosing function (optional)
 	Arg  int    // argument index for kind call
@@ -47,15 +47,17 @@ var specs = []spec{
 	{"stats_ring_transmitted", "internal/io/fs/stats.go", "arraylen", "transmitted", "stats", 0},
 	{"chan_raw_lines_cap", "internal/io/fs/readfile.go", "chancap", "rawLines", "Start", 0},
 	{"query_keywords", "internal/mapr/token.go", "strlist", "keywords", "", 0},
+	{"default_connections_per_cpu", "internal/config/config.go", "const", "DefaultConnectionsPerCPU", "", 0},
+	{"truncated_cmp", "internal/io/fs/readfile.go", "cmpop", "currentPosition,pathPosition", "truncated", 0},
 }
 
 type value struct {
-	Kind string      `json:"kind"` // string | int | strlist
-	S    string      `json:"s,omitempty"`
-	Hex  string      `json:"hex,omitempty"`
-	I    int64       `json:"i,omitempty"`
-	L    []string    `json:"l,omitempty"`
-	Src  string      `json:"src"`
+	Kind string   `json:"kind"` // string | int | strlist
+	S    string   `json:"s,omitempty"`
+	Hex  string   `json:"hex,omitempty"`
+	I    int64    `json:"i,omitempty"`
+	L    []string `json:"l,omitempty"`
+	Src  string   `json:"src"`
 }
 
 func evalExpr(e ast.Expr, consts map[string]constant.Value) (constant.Value, bool) {
@@ -315,6 +317,37 @@ func extract(repo string, sp spec) (value, error) {
 		})
 		if res == nil {
 			return value{}, fmt.Errorf("array field %s.%s not found in %s", sp.Fn, sp.Key, sp.File)
+		}
+		return *res, nil
+	case "cmpop":
+		// the comparison operator between the two identifiers "a,b" (Key) inside Fn:
+		// 1 '>'  2 '>='  3 '<'  4 '<='  5 '=='  6 '!='
+		scope := findFunc(f, sp.Fn)
+		if scope == nil {
+			return value{}, fmt.Errorf("function %s not found in %s", sp.Fn, sp.File)
+		}
+		ab := strings.Split(sp.Key, ",")
+		var res *value
+		n := 0
+		ast.Inspect(scope, func(nd ast.Node) bool {
+			be, ok := nd.(*ast.BinaryExpr)
+			if !ok {
+				return true
+			}
+			x, ok1 := be.X.(*ast.Ident)
+			y, ok2 := be.Y.(*ast.Ident)
+			if !ok1 || !ok2 || x.Name != ab[0] || y.Name != ab[1] {
+				return true
+			}
+			code := map[token.Token]int64{token.GTR: 1, token.GEQ: 2, token.LSS: 3, token.LEQ: 4, token.EQL: 5, token.NEQ: 6}[be.Op]
+			if code != 0 {
+				n++
+				res = &value{Kind: "int", I: code, Src: src}
+			}
+			return true
+		})
+		if res == nil || n != 1 {
+			return value{}, fmt.Errorf("exactly one comparison of %s expected in %s(%s), found %d", sp.Key, sp.File, sp.Fn, n)
 		}
 		return *res, nil
 	case "call":
